@@ -1,5 +1,5 @@
-(** C04 — l@d and l+ext@d (l, ext unquoted), both accepted, get the same mailbox name *)
-From IV Require Import Base.Bytes Model.Addr Proofs.AddrFacts Proofs.AddrScan Proofs.AddrDomain Proofs.AddrNaming.
-Theorem plus_insensitive : forall (parse_ip : str -> bool) mode l e d r r', l <> [] -> plain l = true -> plain e = true -> new_recipient parse_ip mode (l ++ 64 :: d) = Some r -> new_recipient parse_ip mode (l ++ 43 :: e ++ 64 :: d) = Some r' -> r_mailbox r = r_mailbox r'.
-Proof. exact AddrNaming.plus_insensitive. Qed.
+(** C04 — l@d and l+ext@d, both accepted, get the same mailbox name: for every local part l without an at sign (quoted strings and quoted pairs included) and every unquoted extension *)
+From IV Require Import Base.Bytes Model.Addr Proofs.AddrFacts Proofs.AddrScan Proofs.AddrDomain Proofs.AddrNaming Proofs.AddrPlus.
+Theorem plus_insensitive : forall (parse_ip : str -> bool) mode l e d r r', l <> [] -> ~ In 64 l -> plain e = true -> new_recipient parse_ip mode (l ++ 64 :: d) = Some r -> new_recipient parse_ip mode (l ++ 43 :: e ++ 64 :: d) = Some r' -> r_mailbox r = r_mailbox r'.
+Proof. exact AddrPlus.plus_insensitive_general. Qed.
 Print Assumptions plus_insensitive.
